@@ -86,10 +86,68 @@ def cond_cases(rng, tier):
     return out
 
 
+FAIL = {0: 0b0000, 1: 0b0100, 2: 0b0000, 3: 0b0010, 4: 0b0000, 5: 0b1000, 6: 0b0000, 7: 0b0001, 8: 0b0000, 9: 0b0010,
+        10: 0b1000, 11: 0b0000, 12: 0b0100, 13: 0b0000}      # for each condition an NZCV value for which it fails
+SKIP_ARM = {'BkptA1', 'UdfA1'}                               # unconditional even with a condition field
+SKIP_THUMB = {'BT1', 'BT3', 'CbzT1', 'ItT1', 'BkptT1', 'UdfT1', 'UdfT2'}   # carry their own condition / UNPREDICTABLE in an IT block
+
+
+def condfail_cases(rng, tier):
+    """whole steps of instructions whose condition fails: nothing but the PC and the IT state may change.  A few words of
+    every encoding class reached by sampling (ARM: condition field forced to a failing one; Thumb: inside an IT block whose
+    condition fails), which is a concrete-input search for the theorem C05_guard and extends it to the whole step"""
+    import framework
+    t = tables()
+    names = {v['code']: k for k, v in t['concrete_classes'].items()}
+    icpsr = t['sys_names'].index('cpsr')
+    out = []
+    nsample = 20000 if tier == 'quick' else 300000
+    per_class = 2 if tier == 'quick' else 25
+    plan = []
+    for module, gen, kind in (('arm_instruction_set', stepgen.random_arm_word, 'arm'),
+                              ('thumb_instruction_set_encoding_32_bit', stepgen.random_thumb32, 't32'),
+                              ('thumb_instruction_set_encoding_16_bit', stepgen.random_thumb16, 't16')):
+        words = [gen(rng) for _ in range(nsample)]
+        codes = framework.run_impl([{'kind': 'classify', 'module': module, 'words': words}], 'c05_classify_' + kind)[0]
+        byclass = {}
+        for w, c in zip(words, codes):
+            if c >= 0 and len(byclass.setdefault(c, [])) < per_class:
+                byclass[c].append(w)
+        for c, ws in sorted(byclass.items()):
+            nm = names.get(c, '')
+            if nm in SKIP_ARM or nm in SKIP_THUMB:
+                continue
+            for w in ws:
+                plan.append((kind, w))
+    for kind, w in plan:
+        cond = rng.randrange(14)
+        nzcv = FAIL[cond]
+        st = stepgen.random_state(rng, t, thumb=(kind != 'arm'), mpu=False)
+        cpsr = st['sys'][icpsr] & ~((0xF << 28) | (0x3F << 10) | (3 << 25))
+        cpsr |= nzcv << 28
+        if kind == 'arm':
+            if (w >> 28) == 0xF:
+                continue
+            w = (w & 0x0FFFFFFF) | (cond << 28)
+            length = 4
+        else:
+            it = (cond << 4) | 0x8                    # last instruction of the block: branches are allowed there
+            cpsr |= ((it >> 2) << 10) | ((it & 3) << 25)
+            length = 2 if kind == 't16' else 4
+            if kind == 't32':
+                st['_thumb32'] = True
+        st['sys'][icpsr] = cpsr
+        stepgen.put_instr(st, w, 16 if kind == 't16' else 32)
+        out.append({'impl': {'kind': 'step_condfail', 'state': stepgen.clean(st), 'length': length}, 'model': None, 'spec': '[0]',
+                    'label': 'condfail_' + kind, 'nontrivial': True})
+    return out
+
+
 def units():
     return [
         Unit('cond_table', ['C05_current_cond', 'C05_table'], ['Proofs/CondProofs.v'],
              ['arm_v6.ArmV6.condition_passed', 'arm_v6.ArmV6.current_cond'], cond_cases, IMPORTS, SPEC_IMPORTS),
         Unit('guard', ['C05_guard', 'C05_pass'], ['Proofs/CondProofs.v', 'Proofs/GuardProofs.v'],
              ['arm_v6.ArmV6.condition_passed'], None, IMPORTS, SPEC_IMPORTS),
+        Unit('condfail_search', [], [], [], condfail_cases, IMPORTS, 'From Coq Require Import ZArith List.'),
     ]
